@@ -301,3 +301,27 @@ chk('C11', 'fault_enumeration',
     'runtime monitoring: exhaustive crash-point enumeration (every byte '
     'offset) with exception-class, step-budget and edition-digest oracles',
     'DESIGN.md section 4 (C11)')
+chk('C10', 'exploration',
+    'Three monitors on the real readers. (S) synthetic Tripoli-4 listings '
+    'written from a known ground truth in the layouts of the shipped '
+    'examples (1-4 editions, 1-4 responses, 1-3 zones, energy spectra with '
+    'or without time / mu steps, groups printed increasing or decreasing, '
+    'integrated and not-converged results, values of both signs and zero) '
+    'are parsed by batch number and by index and compared cell by cell '
+    '(value = printed token, error = value x sigma% / 100, bins = printed '
+    'boundaries sorted, response / zone / score-name labels). (R) every '
+    'shipped listing with spectrum rows is rewritten by an independent '
+    'tokenizer so that every score and sigma is unique; each printed row of '
+    'a delivered edition must be found exactly once, under its response and '
+    'zone, between its printed bin edges and under its step header, and the '
+    'datasets that hold rows may hold nothing else. (A) Apollo3 HDF5 files '
+    'generated with h5py from a ground truth of unique numbers (standard and '
+    'user-value models, anisotropies, surfaces, local values) are read with '
+    'Reader and every applicable Picker call and compared with what was '
+    'stored; Reader-vs-Picker differential and direct h5py walk on the six '
+    'shipped files.',
+    'layouts limited to those of the shipped examples; h5py trusted; one '
+    'open known finding (shape () vs (1,) of one-element local values)',
+    'runtime monitoring: ground-truth generators + unique-value tagging '
+    'oracle + differential Reader/Picker',
+    'DESIGN.md section 4 (C10)')
